@@ -211,20 +211,23 @@ func main() {
 	timedOut := ctx.Err() != nil
 
 	// ---- native fuzz campaigns (thorough tier only)
-	var fuzzNotes []string
+	var fuzzNotes, fuzzInfra []string
 	var fuzzExecs int64
 	var failures []failure
 	if *tier == "thorough" && *replay == "" && !timedOut {
 		for _, target := range cfg.Fuzz {
 			note, execs, fl := runFuzz(*prop, target, cfg.FuzzTime, work)
 			fuzzNotes = append(fuzzNotes, note)
+			if strings.Contains(note, "INFRA:") {
+				fuzzInfra = append(fuzzInfra, note)
+			}
 			fuzzExecs += execs
 			failures = append(failures, fl...)
 		}
 	}
 
 	// ---- collect
-	infra := []string{}
+	infra := append([]string{}, fuzzInfra...)
 	merged := shardResult{Classes: map[string]int64{}, Excluded: map[string]int64{}}
 	var fps []uint64
 	for i := 0; i < shards; i++ {
